@@ -269,10 +269,12 @@ def _case(draw):
             kind = draw(st.sampled_from(["arr", "lst", "tab", "tre", "tup", "tabr", "trer", "thr"]))
             cls = draw(st.sampled_from(["m", "m", "m", "root", "raw"]))
             rt = draw(st.sampled_from([0, 0, 1, 2, 3])) if kind not in ("tup", "thr") else 0
+            free = sorted(set(range(16)) - set(kept))
+            if cls == "m" and not free:
+                continue                    # no stack slot to protect a managed container while its elements are allocated
             nobj += 1
             c = nobj
             ops.append(["new", c, kind, cls] + (["retype%d" % rt] if rt else []))
-            free = sorted(set(range(16)) - set(kept))
             keep = cls == "m" and free and draw(st.booleans())
             if cls == "m" and free:
                 ops.append(["stk", free[0], c])       # protected while its elements are allocated
